@@ -135,8 +135,8 @@ type c02Worker struct {
 	// processors with the production plan, so a processor that itself ignores the planner's decision
 	// (both plans wrong in the same way) is only visible against the documented semantics.
 	ref    *c01Worker
-	refIdx map[string]int // target name -> index into ref.fixtures / ref.gis
-	spell       [][][]refsem.Step // groups of programs that must return identical rows
+	refIdx map[string]int    // target name -> index into ref.fixtures / ref.gis
+	spell  [][][]refsem.Step // groups of programs that must return identical rows
 }
 
 func c02Alphabet() []refsem.Step {
